@@ -171,7 +171,7 @@ def tloop (g : Digraph) : Nat → TState → Option TState
   | 0, st => if st.dfs.isEmpty then some st else none
   | fuel + 1, st => if st.dfs.isEmpty then some st else tloop g fuel (tstep g st)
 
-def tarjanFuel (g : Digraph) : Nat := 2 * (g.nodes.length + g.edges.length) + 1
+def tarjanFuel (g : Digraph) : Nat := g.nodes.length * (g.nodes.length + 1) + 1
 
 /-- body of `digraph.EachNode(func(start) …)` -/
 def tarjanFrom (g : Digraph) (st : TState) (start : Nat) : Option TState :=
